@@ -29,6 +29,7 @@ def run_case(M, clause, inputs):
     """Run one clause check on materialised inputs; returns the CaseCtx."""
     runtime.EVENTS.clear()
     c = CaseCtx(clause.name, events=runtime.EVENTS)
+    c.decoy = bool(getattr(M, "decoy", False))
     harness_error = None
     with warnings.catch_warnings(record=True) as wlist:
         warnings.simplefilter("always")
